@@ -4,9 +4,11 @@ package drivers
 import (
 	_ "verif/mc/drivers/c01"
 	_ "verif/mc/drivers/c02"
+	_ "verif/mc/drivers/c03"
 	_ "verif/mc/drivers/c04"
 	_ "verif/mc/drivers/c05"
 	_ "verif/mc/drivers/c06"
+	_ "verif/mc/drivers/c07"
 	_ "verif/mc/drivers/c08"
 	_ "verif/mc/drivers/c09"
 	_ "verif/mc/drivers/c10"
